@@ -18,7 +18,7 @@ Theorem C10_syntax_xml : forall first second,
 Proof. exact xml_create_in_document_safe. Qed.
 
 Theorem C10_syntax_soap : forall decode first second,
-  match decode with None => True | Some e => mem_exn e [EUnicodeDecodeError] = true end ->
+  match decode with None => True | Some e => mem_exn e SOAP_DECODE_RAISES = true end ->
   lib_in XML_FIRST first -> lib_in XML_SECOND second -> safe (soap_parse_xml_string decode first second).
 Proof. exact soap_parse_safe. Qed.
 
@@ -72,6 +72,14 @@ Theorem C10_dict_wsgi_total : forall fmt P soft A fuel reconstruct rq,
   good_or_fuel (dict_wsgi fmt P soft A fuel reconstruct rq) = true.
 Proof. exact dict_wsgi_total. Qed.
 
+(** the charset parameter of Content-Type: whatever codecs.lookup does with it (LookupError,
+    TypeError, ValueError, a codec that is no text encoding), __reconstruct_wsgi_request returns or
+    raises a Client fault - the [reconstruct] the three theorems above ask to be safe *)
+Theorem C10_wsgi_charset : forall cl,
+  match cl with CLRaise e => mem_exn e CODEC_LOOKUP_RAISES = true | _ => True end ->
+  safe (reconstruct_wsgi_request cl).
+Proof. exact reconstruct_safe. Qed.
+
 (** ---- the user function is run only for a request nothing was raised for ---- *)
 Theorem C10_fault_means_not_called :
   forall (H : Type) (head : res H) (deser : H -> res unit) (cls_of : H -> nat) (reconstruct : res unit) c,
@@ -94,7 +102,10 @@ Definition ex_app : app :=
         mkfield [100; 116] (TLeaf LDateTime) 0 (Fin 1) true KElem;
         mkfield [108] (TArr 0 (TLeaf LText)) 0 (Fin 1) true KElem]]
     [([123; 116; 110; 115; 125; 103], Some (TRef 0, true))]
-    [([123; 116; 110; 115; 125; 103], 0%nat)].
+    [([123; 116; 110; 115; 125; 103], mkmsig 0 (TRef 0) true None);
+     ([123; 116; 110; 115; 125; 111; 112], mkmsig 1 (TLeaf (LInt (Fin 1024))) true (Some [111; 112]));
+     ([123; 116; 110; 115; 125; 111; 112; 97], mkmsig 2 (TArr 0 (TLeaf LText)) true (Some [111; 112; 97]))].
+Definition ex_m0 : msig := mkmsig 0 (TRef 0) true None.
 Definition ex_root (itext : text) : xnode :=
   XE [123; 116; 110; 115; 125; 103] [] [] None [XE [123; 116; 110; 115; 125; 105] [] [] (Some itext) []].
 Definition ex_xreq (itext : text) : xml_request := mkxreq (LibOk (ex_root itext)) (LibRaise EXMLSyntaxError) None.
@@ -178,10 +189,30 @@ Example C10_ex_wsgi :
   /\ dict_wsgi (fun _ => []) PMsgpack false ex_app 5 (Ret tt) (mkdreq None (LibOk (JList [])))
      = Answered EValidationError t_ClientValidationError.
 Proof. vm_compute. repeat split; auto. Qed.
+(** bare methods: an empty request element, a malformed primitive, null, a scalar for an array *)
+Example C10_ex_bare :
+  xml_server true ex_app (mkxreq (LibOk (XE [123; 116; 110; 115; 125; 111; 112] [] [] None [])) (LibRaise EXMLSyntaxError) None) = Called 1
+  /\ xml_server true ex_app (mkxreq (LibOk (XE [123; 116; 110; 115; 125; 111; 112] [] [] (Some [97; 98; 99]) [])) (LibRaise EXMLSyntaxError) None)
+     = Answered EValidationError t_ClientValidationError
+  /\ dict_server (fun _ => []) PJson true ex_app 5 (mkdreq None (LibOk (JMap [(JStr [111; 112], JNull)]))) = Called 1
+  /\ dict_server (fun _ => []) PJson false ex_app 5 (mkdreq None (LibOk (JMap [(JStr [111; 112], JList [JInt 1])])))
+     = Answered EValidationError t_ClientValidationError
+  /\ dict_server (fun _ => []) PJson false ex_app 5 (mkdreq None (LibOk (JMap [(JStr [111; 112; 97], JInt 5)])))
+     = Answered EValidationError t_ClientValidationError
+  /\ dict_server (fun _ => []) PJson false ex_app 5 (mkdreq None (LibOk (JMap [(JStr [111; 112; 97], JList [JStr [120]])]))) = Called 2.
+Proof. vm_compute. repeat split; auto. Qed.
+Example C10_ex_charset :
+  reconstruct_wsgi_request (CLRaise ELookupError) = Raise EValidationError t_ClientValidationError
+  /\ reconstruct_wsgi_request (CLRaise ETypeError) = Raise EValidationError t_ClientValidationError
+  /\ reconstruct_wsgi_request (CLFound false) = Raise EValidationError t_ClientValidationError
+  /\ reconstruct_wsgi_request (CLFound true) = Ret tt
+  /\ xml_wsgi true ex_app (reconstruct_wsgi_request (CLFound false)) (ex_xreq [53])
+     = Answered EValidationError t_ClientValidationError.
+Proof. vm_compute. repeat split; auto. Qed.
 Example C10_ex_called :
   xml_server true ex_app (ex_xreq [53]) = Called 0
-  /\ xml_decode_head ex_app (ex_xreq [53]) = Ret (0%nat, ex_root [53])
-  /\ xml_deserialize true ex_app 0 (ex_root [53]) = Ret tt.
+  /\ xml_decode_head ex_app (ex_xreq [53]) = Ret (ex_m0, ex_root [53])
+  /\ xml_deserialize true ex_app ex_m0 (ex_root [53]) = Ret tt.
 Proof. vm_compute. repeat split; auto. Qed.
 Example C10_ex_guard :
   get_out_object_guarded = true
